@@ -84,14 +84,15 @@ func c17CoqPath(pkg string) string {
 }
 
 type c17Inv struct {
-	Op     string   `json:"op"`
-	P      string   `json:"p"`
-	Pats   []string `json:"pats"`
-	Ign    bool     `json:"ign"`
-	RelOut bool     `json:"relOut"`
-	SubDir bool     `json:"subDir"`
-	Exit   int      `json:"exit"`
-	Tree   map[string]struct {
+	Op        string   `json:"op"`
+	P         string   `json:"p"`
+	Pats      []string `json:"pats"`
+	Ign       bool     `json:"ign"`
+	RelOut    bool     `json:"relOut"`
+	SubDir    bool     `json:"subDir"`
+	EmptyWild bool     `json:"emptyWild"`
+	Exit      int      `json:"exit"`
+	Tree      map[string]struct {
 		V    int    `json:"v"`
 		Kind string `json:"kind"`
 	} `json:"tree"`
@@ -176,6 +177,9 @@ func C17(c *ev.Ctx) {
 		for p := range c17Dirs {
 			c17Write(root, p, 1)
 		}
+		// a directory tree without any Go package (target of the empty wildcard)
+		_ = os.MkdirAll(filepath.Join(root, "docs", "sub"), 0755)
+		_ = os.WriteFile(filepath.Join(root, "docs", "sub", "readme.md"), []byte("no go files here\n"), 0644)
 	}
 	invN := 0
 	run := func(cwd string, args ...string) (string, int) {
@@ -267,6 +271,22 @@ func C17(c *ev.Ctx) {
 	} else {
 		c.Violation("c17.partial-missing", "package earlybad (failing declaration in the first of three files): no partial reference; the command reported no error for it or wrote nothing with -ignore-errors", nil)
 	}
+	// an output tree in which a directory that is needed exists as a regular file: whatever the command does about it,
+	// it must not claim success (exit 0) while a translated package has no file
+	{
+		newModule()
+		out := filepath.Join(c.Scratch, "c17obst")
+		_ = os.RemoveAll(out)
+		obst := filepath.Join(out, filepath.Dir(c17CoqPath("nested")))
+		_ = os.MkdirAll(filepath.Dir(obst), 0755)
+		_ = os.WriteFile(obst, []byte("in the way\n"), 0644)
+		msg, code := run(root, "-out", out, "-dir", root, "./"+c17Dirs["good"], "./"+c17Dirs["nested"])
+		_, errN := os.Stat(filepath.Join(out, c17CoqPath("nested")))
+		if code == 0 && errN != nil {
+			c.Violation("c17.exit-0-without-file", fmt.Sprintf("a regular file occupies the place of the output directory of package nested: goose exits 0 although no file was written for that package\n%s", firstLines(msg, 6)), map[string]string{"tree.txt": listTree(out)})
+		}
+		_ = os.RemoveAll(out)
+	}
 	// a directory on another file system (tmpfs) if there is one
 	otherFs := ""
 	if st1, st2 := new(syscall.Stat_t), new(syscall.Stat_t); syscall.Stat("/dev/shm", st1) == nil && syscall.Stat(c.Scratch, st2) == nil && st1.Dev != st2.Dev {
@@ -338,6 +358,9 @@ func C17(c *ev.Ctx) {
 			for _, pk := range e.Pats {
 				args = append(args, patPrefix+c17Dirs[pk])
 			}
+			if e.EmptyWild {
+				args = append(args, patPrefix+"docs/...")
+			}
 			msg, code := run(cwd, args...)
 			invs++
 			bad := ""
@@ -390,7 +413,7 @@ func C17(c *ev.Ctx) {
 			}
 			if bad != "" {
 				hb, _ := json.MarshalIndent(h[:si+1], "", " ")
-				c.Violation("c17.invocation", fmt.Sprintf("invocation %d (patterns %v, -ignore-errors=%v, relative -out=%v, -dir inside the module=%v): %s\n%s", si+1, e.Pats, e.Ign, e.RelOut, e.SubDir, bad, firstLines(msg, 6)),
+				c.Violation("c17.invocation", fmt.Sprintf("invocation %d (patterns %v, -ignore-errors=%v, relative -out=%v, -dir inside the module=%v, extra empty wildcard=%v): %s\n%s", si+1, e.Pats, e.Ign, e.RelOut, e.SubDir, e.EmptyWild, bad, firstLines(msg, 6)),
 					map[string]string{"history.json": string(hb), "stderr.txt": msg, "tree.txt": listTree(absOut)})
 				failed = true
 				break
